@@ -8,6 +8,7 @@ values; chunks swapped / duplicated / dropped with and without the matching inde
 Oracle (an implication): open, read-to-0 and close all succeed  =>  returned bytes = the base content or = the
 reference decoding of the mutant with every checksum matching.
 """
+PROMOTE = True   # quick runs the former thorough bound (seconds); thorough goes deeper where a deeper bound is defined (ctx.deep)
 import itertools
 import core, zckref, universe
 from universe import Cfg
